@@ -126,9 +126,32 @@ type E2ECase struct {
 	Skipped  bool   `json:"skipped,omitempty"` // not run: this mode already hit three observation bounds
 }
 
+// StageCase: TLSHelloConn alone on a scripted connection - a hello with
+// bytes behind it, delivered in the given segments; HelloInfo, then for every
+// run a fresh connection read to the end with one caller buffer size.
+type StageRun struct {
+	M         int    `json:"m"`      // len(buf) of every Read
+	Chunks    []int  `json:"chunks"` // what each Read returned (the last one together with the end)
+	Ended     string `json:"ended"`  // eof | error:<text> | limit
+	Total     int    `json:"total"`
+	OK        bool   `json:"ok"`         // everything read == everything sent
+	FirstDiff int    `json:"first_diff"` // -1 when what was read is a prefix of what was sent
+}
+
+type StageCase struct {
+	Hello    string     `json:"hello"` // hex: the ClientHello record
+	HelloLen int        `json:"hello_len"`
+	Trail    int        `json:"trail"` // bytes behind the hello
+	Sched    []int      `json:"sched"` // segment sizes (then everything that is left)
+	SegDesc  string     `json:"seg_desc"`
+	Name     string     `json:"name"` // what HelloInfo reported
+	Runs     []StageRun `json:"runs"`
+}
+
 type Case struct {
 	I      int        `json:"i"`
 	Stream string     `json:"stream"`
+	Stage  *StageCase `json:"stage,omitempty"`
 	Write  *WriteCase `json:"write,omitempty"`
 	Read   *ReadCase  `json:"read,omitempty"`
 	Reply  *ReplyCase `json:"reply,omitempty"`
@@ -594,6 +617,131 @@ func runPipe(r *hx.Rng) *PipeCase {
 	return c
 }
 
+// ---- stage stream: TLSHelloConn alone ----
+
+type segConn struct {
+	data  []byte
+	pos   int
+	sched []int
+}
+
+func (c *segConn) Read(p []byte) (int, error) {
+	if c.pos >= len(c.data) {
+		return 0, io.EOF
+	}
+	if len(p) == 0 {
+		return 0, nil
+	}
+	k := len(c.data) - c.pos
+	if len(c.sched) > 0 {
+		if c.sched[0] < k {
+			k = c.sched[0]
+		}
+		if k < 1 {
+			k = 1
+		}
+		c.sched = c.sched[1:]
+	}
+	if k > len(p) {
+		k = len(p)
+	}
+	copy(p, c.data[c.pos:c.pos+k])
+	c.pos += k
+	return k, nil
+}
+func (c *segConn) Write(p []byte) (int, error)      { return len(p), nil }
+func (c *segConn) Close() error                     { return nil }
+func (c *segConn) LocalAddr() net.Addr              { return &net.TCPAddr{} }
+func (c *segConn) RemoteAddr() net.Addr             { return &net.TCPAddr{} }
+func (c *segConn) SetDeadline(time.Time) error      { return nil }
+func (c *segConn) SetReadDeadline(time.Time) error  { return nil }
+func (c *segConn) SetWriteDeadline(time.Time) error { return nil }
+
+// runStage: kind 0/1 = the minimal hello with 1 / 7 bytes behind it in one
+// segment and EVERY caller buffer size from 1 to a little more than the whole
+// stream (plus the copy-loop sizes); kind 2 = sampled larger hellos, trailers,
+// segmentations and sizes up to 32768.
+func runStage(r *hx.Rng, kind int) *StageCase {
+	payload := 0
+	trail := 1
+	var sizes []int
+	switch kind {
+	case 0, 1:
+		trail = []int{1, 7}[kind]
+	default:
+		payload = []int{0, 300, 1000, 4091, 8192, 16384 - 50, 16384}[r.Intn(7)]
+		trail = []int{1, 2, 100, 1000, 5000, 20000}[r.Intn(6)]
+	}
+	hello := e2e.SynthHello("stage.example", true, payload)
+	H := len(hello)
+	sent := append(append([]byte{}, hello...), pattern(r.U64(), trail)...)
+	c := &StageCase{Hello: hex.EncodeToString(hello), HelloLen: H, Trail: trail, Sched: []int{}, SegDesc: "one segment"}
+	if kind >= 2 {
+		switch r.Intn(5) {
+		case 0:
+			c.Sched, c.SegDesc = []int{H + 1}, "hello and one more byte, then the rest"
+		case 1:
+			c.Sched, c.SegDesc = []int{H}, "cut exactly behind the hello"
+		case 2:
+			k := 1 + r.Intn(H-1)
+			c.Sched, c.SegDesc = []int{k}, fmt.Sprintf("cut inside the hello at %d", k)
+		case 3:
+			c.Sched, c.SegDesc = []int{5}, "header alone, then the rest"
+		}
+		n := len(sent)
+		cand := []int{H - 1, H, H + 1, n - 1, n, n + 1, 512, 4096, 16388, 16389, 16390, 32767, 32768,
+			1 + r.Intn(32768), 1 + r.Intn(32768), 1 + r.Intn(n)}
+		if n <= 2000 {
+			cand = append(cand, 1, 2, 3)
+		}
+		for _, m := range cand {
+			if m >= 1 {
+				sizes = append(sizes, m)
+			}
+		}
+	} else {
+		for m := 1; m <= len(sent)+2; m++ {
+			sizes = append(sizes, m)
+		}
+		sizes = append(sizes, 4096, 16389, 32768)
+	}
+	for _, m := range sizes {
+		hc := sniproxy.NewTLSHelloConn(&segConn{data: sent, sched: append([]int{}, c.Sched...)})
+		info, err := hc.HelloInfo()
+		if err != nil {
+			c.Name = "error:" + err.Error()
+		} else {
+			c.Name = info.ServerName
+		}
+		run := StageRun{M: m, Chunks: []int{}, FirstDiff: -1}
+		var got []byte
+		for {
+			buf := make([]byte, m)
+			k, rerr := hc.Read(buf)
+			run.Chunks = append(run.Chunks, k)
+			got = append(got, buf[:k]...)
+			if rerr != nil {
+				run.Ended = "eof"
+				if rerr != io.EOF {
+					run.Ended = "error:" + rerr.Error()
+				}
+				break
+			}
+			if len(run.Chunks) > 200000 {
+				run.Ended = "limit"
+				break
+			}
+		}
+		run.Total = len(got)
+		run.OK = bytes.Equal(got, sent)
+		if !bytes.HasPrefix(sent, got) {
+			run.FirstDiff = diffAt(got, sent)
+		}
+		c.Runs = append(c.Runs, run)
+	}
+	return c
+}
+
 // ---- e2e stream ----
 
 type appPlan struct {
@@ -915,7 +1063,14 @@ type spec struct {
 func plan(seed uint64, n, e2eN int, big, huge bool) []spec {
 	r := hx.NewRng(seed)
 	var ss []spec
-	// corpus first: the boundary sizes in every mode
+	// corpus first: the front stage alone (TLSHelloConn), a hello with bytes
+	// behind it in one segment, every caller buffer size
+	ss = append(ss, spec{stream: "stage", seed: r.U64(), a: 0})
+	ss = append(ss, spec{stream: "stage", seed: r.U64(), a: 1})
+	for i := 0; i < 10; i++ {
+		ss = append(ss, spec{stream: "stage", seed: r.U64(), a: 2})
+	}
+	// then the boundary sizes in every mode
 	for _, mode := range e2e.Modes {
 		for _, sz := range []int{4096, 4097, 32769, 65537} {
 			ss = append(ss, spec{stream: "e2e", seed: r.U64(), mode: mode, a: sz, b: sz})
@@ -1001,6 +1156,8 @@ func runSpec(i int, s spec) (c Case) {
 		c.Reply = runReply(r)
 	case "pipe":
 		c.Pipe = runPipe(r)
+	case "stage":
+		c.Stage = runStage(r, s.a)
 	case "e2e":
 		mw := worlds[s.mode]
 		if mw == nil {
